@@ -20,7 +20,7 @@ from vlib import hx, hxl, cps, uncps
 ID = 'C04'
 sys.setrecursionlimit(max(sys.getrecursionlimit(), 6000))
 COMPONENTS = ['lazycore']
-THEOREMS = ['C04_coincidence', 'C04_rw_local_name', 'C04_rw_identity', 'C04_rw_array_proj',
+THEOREMS = ['C04_coincidence', 'C04_rw_local_name', 'C04_rw_local_name_results', 'C04_rw_identity', 'C04_rw_array_proj',
             'C04_rw_object_proj', 'C04_rw_dead_local', 'C04_rw_dead_bind', 'C04_rw_dead_field',
             'C04_rw_dead_field_value', 'C04_rw_dead_param', 'C04_dead_code_irrelevance',
             'C04_dead_bind_irrelevance', 'C04_error_in_dead_code', 'C04_run_once', 'C04_done_is_stable',
@@ -359,13 +359,13 @@ class Gen:
                     if d > -4 else self.tiny(ty)
             return self.lit(ty, 0, env, ctx)
         r = rng.random()
-        if r < 0.16:
+        if r < 0.12:
             return self.lit(ty, d, env, ctx)
-        if r < 0.28:
+        if r < 0.30:
             vs = self.vars_of(ty, env)
             if vs:
                 return ('var', rng.choice(vs))
-            return self.lit(ty, d, env, ctx)
+            return self.share(ty, d, env, ctx)
         if r < 0.46:
             return self.local(ty, d, env, ctx)
         if r < 0.54:
@@ -431,6 +431,39 @@ class Gen:
             return self.site(self.expr(ty, d - 1, env, ctx), True)   # a trace in a non-binding position
         return self.lit(ty, d, env, ctx)
 
+    def share(self, ty, d, env, ctx):
+        """one traced binding used several times: memoisation is observable (call-by-name traces repeat)"""
+        self.kinds.add('share')
+        rng = self.rng
+        x = self.name(env)
+        k = ty[0]
+        if k in ('num', 'str'):
+            b = self.site(self.expr(ty, d - 2, env, ctx), ctx['infun'])
+            body = ('add', ('var', x), ('var', x))
+            if rng.random() < 0.4:
+                body = ('add', body, ('var', x))
+            return ('local', [(x, b)], body)
+        if k == 'arr' and ty[2] >= 1:
+            b = self.site(self.expr(ty[1], d - 2, env, ctx), ctx['infun'])
+            return ('local', [(x, b)], ('arr', [('var', x)] * ty[2]))
+        if k == 'bool':
+            t = rng.choice([NUM, STR])
+            b = self.site(self.expr(t, d - 2, env, ctx), ctx['infun'])
+            return ('local', [(x, b)], ('eq', ('var', x), ('var', x)))
+        if k == 'obj' and ty[1]:
+            # an object whose fields all read one hidden traced field through self
+            f0 = sorted(ty[1].keys())[0]
+            fields = [('h', True, self.site(self.expr(ty[1][f0], d - 2, env, dict(ctx, self={})), ctx['infun']))]
+            for f, t in ty[1].items():
+                if t == ty[1][f0]:
+                    self.kinds.add('self')
+                    fields.append((f, False, ('field', ('self',), 'h')))
+                else:
+                    fields.append((f, False, self.tiny(t)))
+            rng.shuffle(fields)
+            return ('obj', fields)
+        return self.lit(ty, d, env, ctx)
+
     def tiny(self, ty):
         k = ty[0]
         if k == 'arr':
@@ -450,7 +483,10 @@ class Gen:
         for _ in range(n):
             x = self.name(env, used)
             used.append(x)
-            binds.append([x, self.rand_type(1) if rng.random() < 0.7 else ty, None])
+            if rng.random() < 0.12:
+                binds.append([x, ('fun', [NUM], rng.choice([NUM, STR])), None])
+            else:
+                binds.append([x, self.rand_type(1) if rng.random() < 0.7 else ty, None])
         # binds may refer to binds later in a random order (acyclic), bodies see all of them
         order = list(range(n))
         rng.shuffle(order)
@@ -463,7 +499,7 @@ class Gen:
                 binds[idx][2] = self.failing(d - 1, env_avail, ctx)     # dead, failing
                 dead.add(x)
                 self.kinds.add('dead-local')
-            elif t[0] == 'fun' and t[1] and t[1][0] == NUM and t[2][0] in ('num', 'str', 'arr') and rng.random() < 0.5:
+            elif t[0] == 'fun' and t[1] and t[1][0] == NUM and t[2][0] in ('num', 'str', 'arr') and rng.random() < 0.8:
                 binds[idx][2] = self.recfun(x, t, d, env_avail, ctx)
                 env_avail = dict(env_avail); env_avail[x] = t
             else:
@@ -868,8 +904,10 @@ def instrument(src, binds):
     """wrap the given binding positions (start, end) with uniquely numbered traces; inner spans first"""
     ins = []
     for i, (a, b) in enumerate(binds):
-        ins.append((a, 1, i, b'std.trace("once-%d", (' % i))
-        ins.append((b, 0, -i, b'))'))
+        # the marker fires strictly BEFORE the wrapped expression is evaluated (array literal, then the index
+        # expression, then the item is forced), so a position that was demanded but failed still counts as demanded
+        ins.append((a, 1, i, b'([('))
+        ins.append((b, 0, -i, b')][std.trace("once-%d", 0)])' % i))
     # at equal positions: closers (0) before openers (1); among openers outer (longer) first; among closers inner first
     res = bytearray()
     pos = 0
@@ -1006,6 +1044,7 @@ def metamorphic(run, bases, impl_exe, rng, per_prog, label):
     bases = analyse_bases(bases, impl_exe)
     cases = []
     meta = {}
+    phase2 = []
     for bi, b in enumerate(bases):
         cid = 'b%d' % bi
         cases.append((cid, 'eval', ['stack=%x' % STACK, hxl(list(b.src))]))
@@ -1014,13 +1053,14 @@ def metamorphic(run, bases, impl_exe, rng, per_prog, label):
             vid = 'b%d.%d' % (bi, vi)
             cases.append((vid, 'eval', ['stack=%x' % STACK, hxl(list(new))]))
             meta[vid] = (b, kind, where, new)
-        # once-instrumentation
-        once = [(a, e) for (a, e, multi, kd) in b.sites.binds if not multi]
-        if once:
+        # once-instrumentation: every binding position gets a numbered trace; the ones outside function
+        # bodies / comprehensions / (for arbitrary programs) object members must fire at most once
+        allb = [(a, e) for (a, e, multi, kd) in b.sites.binds]
+        if allb:
             oid = 'b%d.once' % bi
-            inst = instrument(b.src, once)
+            inst = instrument(b.src, allb)
             cases.append((oid, 'eval', ['stack=%x' % STACK, hxl(list(inst))]))
-            meta[oid] = (b, 'once', str(len(once)), inst)
+            meta[oid] = (b, 'once', str(sum(1 for x in b.sites.binds if not x[2])), inst)
     res = vlib.run_sharded(impl_exe, [vlib.impl_line(c) for c in cases], timeout=300)
     for cid, (b, kind, where, new) in meta.items():
         if kind == 'base':
@@ -1049,14 +1089,26 @@ def metamorphic(run, bases, impl_exe, rng, per_prog, label):
             if why:
                 run.violation('once-instrumentation-changes-result', 'tracing binding positions of %s changes the outcome: %s' % (b.label, why), replay)
                 continue
-            multi = sorted(set(m for m in tr if tr.count(m) > 1))
+            oncable = set('once-%d' % i for i, x in enumerate(b.sites.binds) if not x[2])
+            multi = sorted(set(m for m in tr if m in oncable and tr.count(m) > 1))
             if multi:
                 run.violation('evaluated-more-than-once', 'binding position(s) %s of %s evaluated more than once (%s)' % (multi[:4], b.label, [tr.count(m) for m in multi[:4]]), replay)
                 continue
             run.count(label + ':once-sites', int(where))
-            run.count(label + ':once-sites-fired', len(tr))
+            run.count(label + ':once-sites-fired', len(set(tr) & oncable))
             if tr:
                 run.nontrivial.add(('once', b.label, len(tr)))
+            # positions that were never demanded: replacing them by a failing expression must not matter
+            fired = set(tr)
+            und = [(x[0], x[1]) for i, x in enumerate(b.sites.binds) if ('once-%d' % i) not in fired]
+            und.sort(key=lambda x: (x[0], -x[1]))
+            outer = []
+            for (a, e) in und:
+                if outer and a >= outer[-1][0] and e <= outer[-1][1]:
+                    continue
+                outer.append((a, e))
+            if outer:
+                phase2.append((b, c0, outer))
             continue
         if kind == 'dead-param' and c0[0] == 'err' and c0[1][0] == 'TooManyCallArgs':
             run.count(label + ':skipped-arity-error')
@@ -1067,6 +1119,37 @@ def metamorphic(run, bases, impl_exe, rng, per_prog, label):
         else:
             run.count(label + ':' + kind)
             run.nontrivial.add((b.label, kind, where))
+    # ---- phase 2: never-demanded binding positions replaced by failing expressions
+    cases2 = []
+    meta2 = {}
+    for i, (b, c0, outer) in enumerate(phase2):
+        rng.shuffle(outer)
+        variants = [outer] if len(outer) <= 1 else [outer, outer[:max(1, len(outer) // 2)]]
+        for vi, spans in enumerate(variants):
+            new = b.src
+            for (a, e) in sorted(spans, key=lambda x: -x[0]):
+                new = new[:a] + b'(error "undemanded")' + new[e:]
+            cid = 'u%d.%d' % (i, vi)
+            cases2.append((cid, 'eval', ['stack=%x' % STACK, hxl(list(new))]))
+            meta2[cid] = (b, c0, spans, new)
+    res2 = vlib.run_sharded(impl_exe, [vlib.impl_line(c) for c in cases2], timeout=300)
+    for cid, (b, c0, spans, new) in meta2.items():
+        run.evaluations += 1
+        c1 = canon_impl(res2.get(cid, 'NOOUTPUT'))
+        replay = {'kind': 'meta', 'label': b.label, 'rewrite': 'undemanded-to-error', 'where': ','.join('%x:%x' % x for x in spans[:20]),
+                  'base_hex': hxl(list(b.src)), 'new_hex': hxl(list(new)), 'fields_once': b.fields_once}
+        if c1[0] == 'loaderr':
+            run.violation('rewriter-invalid:undemanded-to-error', 'replacing undemanded positions of %s produced a rejected program (%s)' % (b.label, c1[1]), replay, concrete=False)
+            continue
+        if (c1[0] == 'err' and c1[1][0] in UNSTABLE):
+            continue
+        why = same_outcome(c0, c1)
+        if why:
+            run.violation('undemanded-part-matters', 'replacing %d never-demanded binding position(s) of %s by failing expressions changes the outcome: %s' % (len(spans), b.label, why), replay)
+        else:
+            run.count(label + ':undemanded-to-error')
+            run.count(label + ':undemanded-positions', len(spans))
+            run.nontrivial.add((b.label, 'undemanded', len(spans)))
     return len(bases)
 
 
@@ -1170,7 +1253,7 @@ def run_k(run, progs, impl_exe, model_exe, label):
         cases_i.append(eval_case(cid, text))
         cases_m.append((cid, 'lazycore', ['%x' % FE, '%x' % FM, wire_of(e)]))
     ri = vlib.run_sharded(impl_exe, [vlib.impl_line(c) for c in cases_i], timeout=300)
-    rm = vlib.run_sharded(model_exe, [vlib.model_line(c) for c in cases_m], timeout=300)
+    rm = vlib.run_sharded(model_exe, [vlib.model_line(c) for c in cases_m], timeout=90)
     for i, (key, e, text, outside) in enumerate(progs):
         cid = 'k%d' % i
         run.evaluations += 1
